@@ -76,11 +76,17 @@ def cases(draw):
         kids.append(f"kid-{i}" if use_explicit else None)
     good_idx = [i for i, k in enumerate(keys) if k["kty"] == need_kty and (need_kty == "oct" or k.get("crv") == good[0].get("crv") or need_kty == "RSA")]
     target = draw(st.sampled_from(good_idx))
+    # the empty string is a kid like any other: now and then one key of the set is named ""
+    empty_named = draw(st.sampled_from([None, None, None] + good_idx))
+    if empty_named is not None and kids[empty_named] is not None:
+        kids[empty_named] = ""
     ser = draw(st.sampled_from(["compact", "flattened", "general"]))
     op = draw(st.sampled_from(["consume", "produce"]))
     kidstate = draw(st.sampled_from(["known", "known", "absent", "unknown", "empty", "mislabelled", "mislabelled"] if op == "consume" else ["known", "known", "absent", "unknown"]))
     if kidstate == "mislabelled" and len(good_idx) < 2:
         kidstate = "known"
+    if kidstate == "empty" and "" in kids:
+        kidstate, target = "known", kids.index("")
     pos = "protected" if ser == "compact" else draw(st.sampled_from(["protected", "unprotected"] if kind == "jws" else ["protected", "unprotected", "recipient"]))
     return {"kind": kind, "alg": alg, "keys": [gk.key_to_record(k) for k in keys], "kids": kids, "target": target,
             "other": draw(st.sampled_from([i for i in good_idx if i != target] or [target])), "ser": ser, "op": op, "kidstate": kidstate, "pos": pos,
